@@ -1,4 +1,755 @@
-import RecipeGrid.Model.Lint
+import RecipeGrid.Lemmas.Lint
+/-! C20: the recipe linter. `lintF` is `lint.py` in binary64, `lintQ` the same decision procedure over exact
+    rationals (the documented meaning). Only specification definitions, property theorems and examples;
+    helper lemmas are in `Lemmas/Lint.lean`. -/
 namespace RG.C20
+
 theorem lint_empty : lintF [] = some [] ∧ lintQ [] = some [] := by decide
+
+-- ================================================================ C20.2 the decision table (exact layer)
+/-- exact conversion factor from the unit of a use `q` to the unit of the total `tq`;
+    `none`: one has a unit and the other has none, or the unit system cannot convert -/
+def factorQ (q tq : Quantity) : Option Rat :=
+  match q.unit, tq.unit with
+  | some u, some tu => (convertBetween true (lowerStr u) (lowerStr tu)).map (·.val)
+  | none, none => some 1
+  | _, _ => none
+
+/-- what one use does to the accumulated proportion `u` -/
+def stepUsedQ (total : Option Quantity) (u : Rat) : Amount → Rat
+  | .quantity q =>
+    match total with
+    | none => u
+    | some tq =>
+      match factorQ q tq with
+      | none => u
+      | some c => u + q.value.val * c / tq.value.val
+  | .proportion none _ _ _ => max 1 u
+  | .proportion (some v) _ _ _ => u + v.val
+
+/-- the lint (at most one) a use raises when the accumulated proportion is `u` -/
+def stepLintQ (total : Option Quantity) (u : Rat) : Amount → Option LintKind
+  | .quantity q =>
+    match total with
+    | none => some .quantityUnknown
+    | some tq => if (factorQ q tq).isNone then some .incompatibleUnits else none
+  | .proportion none _ _ _ => if u ≥ 1 then some .nonPositiveRemainder else none
+  | .proportion (some _) _ _ _ => none
+
+/-- the accumulated proportion after all uses, starting from `u` -/
+def usedQ (total : Option Quantity) : Rat → List Amount → Rat
+  | u, [] => u
+  | u, a :: as => usedQ total (stepUsedQ total u a) as
+
+/-- the lints raised while accumulating, in order -/
+def lintsQ (total : Option Quantity) : Rat → List Amount → List LintKind
+  | _, [] => []
+  | u, a :: as => (stepLintQ total u a).toList ++ lintsQ total (stepUsedQ total u a) as
+
+/-- the contribution of a use that is not a remainder -/
+def contribQ (total : Option Quantity) : Amount → Rat
+  | .quantity q =>
+    match total with
+    | none => 0
+    | some tq =>
+      match factorQ q tq with
+      | none => 0
+      | some c => q.value.val * c / tq.value.val
+  | .proportion none _ _ _ => 0
+  | .proportion (some v) _ _ _ => v.val
+
+def isRemainder : Amount → Bool
+  | .proportion none _ _ _ => true
+  | _ => false
+
+def absQ (x : Rat) : Rat := if x < 0 then -x else x
+/-- `isclose(u, 1, rel_tol = 0.02)` over the rationals -/
+def CloseQ (u : Rat) : Prop := absQ (u - 1) ≤ (2 / 100 : Rat) * max u 1
+instance (u : Rat) : Decidable (CloseQ u) := inferInstanceAs (Decidable (_ ≤ _))
+
+/-- everything reported for one output: the lints met on the way, then the verdict if there was none -/
+def outputLintsQ (total : Option Quantity) (amounts : List Amount) : List LintKind :=
+  lintsQ total 0 amounts ++ (if lintsQ total 0 amounts = [] then sumVerdict true (usedQ total 0 amounts) else [])
+
+theorem factorQ_eq (q tq : Quantity) : factorQ q tq = (convFactor true q tq).map (·.val) := by
+  cases hq : q.unit <;> cases ht : tq.unit <;> simp [factorQ, convFactor, hq, ht]
+
+/-- a quantity use while the total is unknown: exactly one `quantityUnknown`, `problem` is set -/
+theorem step_quantity_unknown (st : SumState) (q : Quantity) :
+    sumStep true none st (.quantity q) =
+      some { st with problem := true, lints := st.lints ++ [.quantityUnknown] } := rfl
+
+/-- a quantity use whose unit cannot be converted: exactly one `incompatibleUnits`, `problem` is set -/
+theorem step_incompatible (tq : Quantity) (st : SumState) (q : Quantity) (h : factorQ q tq = none) :
+    sumStep true (some tq) st (.quantity q) =
+      some { st with problem := true, lints := st.lints ++ [.incompatibleUnits] } := by
+  rw [factorQ_eq] at h
+  rw [sumStep_quantity_some]
+  cases hc : convFactor true q tq with
+  | none => rfl
+  | some c => simp [hc] at h
+
+theorem factorQ_none_iff (q tq : Quantity) :
+    factorQ q tq = none ↔
+      (q.unit.isSome ≠ tq.unit.isSome) ∨
+      ∃ u tu, q.unit = some u ∧ tq.unit = some tu ∧ convertBetween true (lowerStr u) (lowerStr tu) = none := by
+  cases hq : q.unit <;> cases ht : tq.unit <;> simp [factorQ, hq, ht]
+
+/-- a convertible quantity use adds `value · factor / total`; nothing is reported -/
+theorem step_compatible (tq : Quantity) (st : SumState) (q : Quantity) (c : Rat) (h : factorQ q tq = some c)
+    (hz : tq.value.val ≠ 0) :
+    ∃ st', sumStep true (some tq) st (.quantity q) = some st' ∧
+      st'.used.val = st.used.val + q.value.val * c / tq.value.val ∧
+      st'.problem = st.problem ∧ st'.lints = st.lints := by
+  rw [factorQ_eq] at h
+  rw [sumStep_quantity_some]
+  cases hc : convFactor true q tq with
+  | none => simp [hc] at h
+  | some c' =>
+    simp only [hc, Option.map_some, Option.some.injEq] at h
+    subst h
+    simp [numDiv, numMul, numAdd, hz]
+
+/-- a remainder raises the accumulated proportion to `max 1 u`, and reports `nonPositiveRemainder`
+    exactly when `u ≥ 1` already -/
+theorem step_remainder (total : Option Quantity) (st : SumState) (p : Bool) (w : Option Str) (s : Str) :
+    ∃ st', sumStep true total st (.proportion none p w s) = some st' ∧
+      st'.used.val = max 1 st.used.val ∧
+      (st.used.val ≥ 1 → st'.problem = true ∧ st'.lints = st.lints ++ [.nonPositiveRemainder]) ∧
+      (st.used.val < 1 → st'.problem = st.problem ∧ st'.lints = st.lints) := by
+  refine ⟨_, rfl, ?_, ?_, ?_⟩
+  · by_cases h : st.used.val ≥ 1
+    · simp only [h, if_true]
+      split <;> grind
+    · simp only [h, if_false]
+      split <;> grind
+  · intro h
+    simp [h]
+  · intro h
+    have : ¬ st.used.val ≥ 1 := by grind
+    simp [this]
+
+/-- a given proportion is added -/
+theorem step_proportion (total : Option Quantity) (st : SumState) (v : Num) (p : Bool) (w : Option Str) (s : Str) :
+    sumStep true total st (.proportion (some v) p w s) =
+      some { st with used := ⟨st.used.val + v.val, .frac⟩ } := rfl
+
+/-- one step of the loop is one row of the table -/
+theorem sumStep_spec (total : Option Quantity) (h : ∀ tq, total = some tq → tq.value.val ≠ 0)
+    (st : SumState) (a : Amount) :
+    ∃ st', sumStep true total st a = some st' ∧
+      st'.used.val = stepUsedQ total st.used.val a ∧
+      st'.lints = st.lints ++ (stepLintQ total st.used.val a).toList ∧
+      st'.problem = (st.problem || (stepLintQ total st.used.val a).isSome) := by
+  cases a with
+  | quantity q =>
+    cases total with
+    | none => exact ⟨_, rfl, rfl, rfl, by simp [stepLintQ]⟩
+    | some tq =>
+      cases hf : factorQ q tq with
+      | none =>
+        refine ⟨_, step_incompatible tq st q hf, ?_, ?_, ?_⟩ <;> simp [stepUsedQ, stepLintQ, hf]
+      | some c =>
+        obtain ⟨st', h1, h2, h3, h4⟩ := step_compatible tq st q c hf (h tq rfl)
+        refine ⟨st', h1, ?_, ?_, ?_⟩ <;> simp [stepUsedQ, stepLintQ, hf, h2, h3, h4]
+  | proportion v p w s =>
+    cases v with
+    | some v => exact ⟨_, rfl, rfl, by simp [stepLintQ], by simp [stepLintQ]⟩
+    | none =>
+      obtain ⟨st', h1, h2, h3, h4⟩ := step_remainder total st p w s
+      refine ⟨st', h1, h2, ?_, ?_⟩
+      · by_cases hu : st.used.val ≥ 1
+        · simp [stepLintQ, hu, (h3 hu).2]
+        · simp [stepLintQ, hu, (h4 (by grind)).2]
+      · by_cases hu : st.used.val ≥ 1
+        · simp [stepLintQ, hu, (h3 hu).1]
+        · simp [stepLintQ, hu, (h4 (by grind)).1]
+
+/-- the loop from any state -/
+theorem sumRefs_spec_from (total : Option Quantity) (h : ∀ tq, total = some tq → tq.value.val ≠ 0) :
+    ∀ (amounts : List Amount) (st : SumState),
+    ∃ st', sumRefs true total st amounts = some st' ∧
+      st'.used.val = usedQ total st.used.val amounts ∧
+      st'.lints = st.lints ++ lintsQ total st.used.val amounts ∧
+      st'.problem = (st.problem || !(lintsQ total st.used.val amounts).isEmpty)
+  | [], st => ⟨st, rfl, rfl, by simp [lintsQ], by simp [lintsQ]⟩
+  | a :: as, st => by
+    obtain ⟨st1, h1, h2, h3, h4⟩ := sumStep_spec total h st a
+    obtain ⟨st', g1, g2, g3, g4⟩ := sumRefs_spec_from total h as st1
+    refine ⟨st', by simp [sumRefs, h1, g1], ?_, ?_, ?_⟩
+    · rw [g2, h2]; rfl
+    · rw [g3, h3, h2, List.append_assoc]; rfl
+    · rw [g4, h4, h2]
+      cases hl : stepLintQ total st.used.val a <;> simp [lintsQ, hl]
+
+/-- C20.2 closed form of the per-output accumulation: as long as no zero total is divided by, the loop ends
+    with the accumulated proportion `usedQ`, the lints `lintsQ`, and `problem` set iff a lint was raised -/
+theorem sumRefs_closed (total : Option Quantity) (h : ∀ tq, total = some tq → tq.value.val ≠ 0)
+    (amounts : List Amount) :
+    ∃ st, sumRefs true total {} amounts = some st ∧
+      st.used.val = usedQ total 0 amounts ∧
+      st.lints = lintsQ total 0 amounts ∧
+      st.problem = !(lintsQ total 0 amounts).isEmpty := by
+  obtain ⟨st, h1, h2, h3, h4⟩ := sumRefs_spec_from total h amounts {}
+  exact ⟨st, h1, h2, by simpa using h3, by simpa using h4⟩
+
+/-- the total the linter infers is never zero (the repository fix maps a zero total to "unknown") -/
+theorem totalQuantity_nonzero {s : Tree} {q : Quantity} (h : totalQuantity s = some q) : q.value.val ≠ 0 :=
+  RG.totalQuantity_nonzero h
+
+theorem usedQ_append (total : Option Quantity) : ∀ (l1 l2 : List Amount) (u : Rat),
+    usedQ total u (l1 ++ l2) = usedQ total (usedQ total u l1) l2
+  | [], _, _ => rfl
+  | a :: l1, l2, u => by simp [usedQ, usedQ_append total l1 l2]
+
+/-- without remainders the accumulated proportion is the exact sum `Σ value·factor/total` resp. `Σ value` -/
+theorem usedQ_sum (total : Option Quantity) : ∀ (amounts : List Amount) (u : Rat),
+    (∀ a ∈ amounts, isRemainder a = false) → usedQ total u amounts = u + (amounts.map (contribQ total)).sum
+  | [], u, _ => by simp [usedQ, Rat.add_zero]
+  | a :: as, u, h => by
+    have ih := usedQ_sum total as (stepUsedQ total u a) (fun x hx => h x (List.mem_cons_of_mem _ hx))
+    have ha := h a List.mem_cons_self
+    have hs : stepUsedQ total u a = u + contribQ total a := by
+      cases a with
+      | quantity q =>
+        cases total with
+        | none => simp [stepUsedQ, contribQ, Rat.add_zero]
+        | some tq => cases hf : factorQ q tq <;> simp [stepUsedQ, contribQ, hf, Rat.add_zero]
+      | proportion v p w s =>
+        cases v with
+        | none => simp [isRemainder] at ha
+        | some v => rfl
+    simp only [usedQ]
+    rw [ih, hs]
+    simp only [List.map_cons, List.sum_cons, Rat.add_assoc]
+
+/-- a remainder resets the accumulation to `max 1 (what was used before)` -/
+theorem usedQ_remainder (total : Option Quantity) (pre post : List Amount) (p : Bool) (w : Option Str) (s : Str)
+    (u : Rat) :
+    usedQ total u (pre ++ .proportion none p w s :: post) = usedQ total (max 1 (usedQ total u pre)) post := by
+  rw [usedQ_append]; rfl
+
+theorem closeQ_iff (u : Rat) :
+    CloseQ u ↔ (if u < 1 then 1 - u else u - 1) ≤ mkRat 2 100 * (if u < 1 then 1 else u) := by
+  have h2 : mkRat 2 100 = (2 / 100 : Rat) := by decide +kernel
+  unfold CloseQ absQ
+  rw [h2]
+  by_cases h : u < 1
+  · have h1 : u - 1 < 0 := by grind
+    have h3 : max u 1 = 1 := by grind
+    simp only [h, h1, h3, if_true]
+    grind
+  · have h1 : ¬ (u - 1 < 0) := by grind
+    have h3 : max u 1 = u := by grind
+    simp only [h, h1, h3, if_false]
+
+theorem sumVerdict_eq (u : Rat) :
+    sumVerdict true u = if CloseQ u then [] else if u < 1 then [.notUsedUp] else [.usedTooMuch] := by
+  unfold sumVerdict
+  simp only [if_true, closeQ_iff u]
+
+/-- used up: `|u − 1| ≤ 2% · max u 1` -/
+theorem sumVerdict_nil_iff (u : Rat) : sumVerdict true u = [] ↔ CloseQ u := by
+  rw [sumVerdict_eq]
+  by_cases h : CloseQ u
+  · simp [h]
+  · by_cases h1 : u < 1 <;> simp [h, h1]
+
+theorem sumVerdict_notUsedUp_iff (u : Rat) : sumVerdict true u = [.notUsedUp] ↔ ¬ CloseQ u ∧ u < 1 := by
+  rw [sumVerdict_eq]
+  by_cases h : CloseQ u
+  · simp [h]
+  · by_cases h1 : u < 1 <;> simp [h, h1]
+
+theorem sumVerdict_usedTooMuch_iff (u : Rat) : sumVerdict true u = [.usedTooMuch] ↔ ¬ CloseQ u ∧ u ≥ 1 := by
+  rw [sumVerdict_eq]
+  by_cases h : CloseQ u
+  · simp [h]
+  · by_cases h1 : u < 1
+    · have : ¬ (1 ≤ u) := by grind
+      simp [h, h1, this]
+    · have : 1 ≤ u := by grind
+      simp [h, h1, this]
+
+/-- exactly one of the three verdicts -/
+theorem sumVerdict_cases (u : Rat) :
+    (sumVerdict true u = [] ∧ CloseQ u) ∨
+    (sumVerdict true u = [.notUsedUp] ∧ ¬ CloseQ u ∧ u < 1) ∨
+    (sumVerdict true u = [.usedTooMuch] ∧ ¬ CloseQ u ∧ u ≥ 1) := by
+  by_cases h : CloseQ u
+  · exact Or.inl ⟨(sumVerdict_nil_iff u).2 h, h⟩
+  · by_cases h1 : u < 1
+    · exact Or.inr (Or.inl ⟨(sumVerdict_notUsedUp_iff u).2 ⟨h, h1⟩, h, h1⟩)
+    · have : u ≥ 1 := by grind
+      exact Or.inr (Or.inr ⟨(sumVerdict_usedTooMuch_iff u).2 ⟨h, this⟩, h, this⟩)
+
+/-- the three verdicts exclude one another -/
+theorem sumVerdict_exclusive (u : Rat) :
+    ¬ (CloseQ u ∧ ¬ CloseQ u) ∧ ¬ ((¬ CloseQ u ∧ u < 1) ∧ (¬ CloseQ u ∧ u ≥ 1)) := by
+  refine ⟨fun h => h.2 h.1, ?_⟩
+  rintro ⟨⟨_, h1⟩, ⟨_, h2⟩⟩
+  grind
+
+/-- the whole sum check, output by output -/
+theorem sumChecks_go_closed : ∀ l : List (Option Quantity × List Amount),
+    (∀ p ∈ l, ∀ tq, p.1 = some tq → tq.value.val ≠ 0) →
+    sumChecks.go true l = some (l.flatMap fun p => outputLintsQ p.1 p.2)
+  | [], _ => rfl
+  | (total, amounts) :: rest, h => by
+    obtain ⟨st, h1, h2, h3, h4⟩ := sumRefs_closed total (h (total, amounts) List.mem_cons_self) amounts
+    have ih := sumChecks_go_closed rest (fun p hp => h p (List.mem_cons_of_mem _ hp))
+    simp only [sumChecks.go, h1, ih, Option.map_some, List.flatMap_cons, outputLintsQ, h2, h3, h4]
+    cases lintsQ total 0 amounts <;> simp
+
+/-- C20.2 the exact linter in closed form: unused ingredients, then for every referenced output (in first
+    occurrence order) its lints and verdict -/
+theorem lintQ_closed (blocks : List Block) :
+    lintQ blocks = some (unusedIngredients blocks ++ (lintGroups blocks).flatMap fun p => outputLintsQ p.1 p.2) := by
+  show lintWith true blocks = _
+  unfold lintWith
+  rw [sumChecks_eq, sumChecks_go_closed]
+  · rfl
+  · intro p hp tq htq
+    obtain ⟨s, hs⟩ := lintGroups_total hp
+    exact totalQuantity_nonzero (hs ▸ htq)
+
+-- ================================================================ C20.5 totality: no ZeroDivisionError
+theorem lintQ_total (blocks : List Block) : (lintQ blocks).isSome := lintWith_isSome true blocks
+theorem lintF_total (blocks : List Block) : (lintF blocks).isSome := lintWith_isSome false blocks
+/-- the accumulation itself only fails on a zero total, in either layer -/
+theorem sumRefs_total (spec : Bool) (total : Option Quantity) (h : ∀ tq, total = some tq → tq.value.val ≠ 0)
+    (amounts : List Amount) (st : SumState) : (sumRefs spec total st amounts).isSome :=
+  sumRefs_isSome spec total h amounts st
+
+-- ================================================================ C20.3 scale invariance (exact layer)
+/-- every tree of every block is as the constructor leaves it (normal strings) and has no float among
+    its scalable numbers -/
+def ExactBlocks (blocks : List Block) : Prop := ∀ b ∈ blocks, ∀ t ∈ b, C03.TreeNormal t ∧ C03.Exact t
+
+theorem exactBlocks_good {blocks : List Block} (h : ExactBlocks blocks) : Tree.GoodList blocks.flatten := by
+  rw [Tree.goodList_iff]
+  intro t ht
+  obtain ⟨b, hb, htb⟩ := List.mem_flatten.1 ht
+  exact Tree.good_of t (h b hb t htb).1 (h b hb t htb).2
+
+/-- the references met outside references are the scaled ones, in the same order (any factor) -/
+theorem topRefs_scale (k : Num) (t : Tree) : Tree.topRefs (Tree.scale k t) = (Tree.topRefs t).map (Tree.scale k) :=
+  Tree.topRefs_scale k t
+/-- likewise the implicit single-ingredient sub recipes (any factor) -/
+theorem implicitSubs_scale (k : Num) (t : Tree) :
+    Tree.implicitSubs (Tree.scale k t) = (Tree.implicitSubs t).map (Tree.scale k) :=
+  Tree.implicitSubs_scale k t
+
+/-- Python `==` between exact normal trees is unchanged by scaling both by a nonzero exact factor -/
+theorem beq_scale (k : Num) (hk : k.kind ≠ .flt) (hk0 : k.val ≠ 0) (a b : Tree)
+    (ha : C03.TreeNormal a ∧ C03.Exact a) (hb : C03.TreeNormal b ∧ C03.Exact b) :
+    Tree.beq (Tree.scale k a) (Tree.scale k b) = Tree.beq a b :=
+  Tree.beq_scale hk hk0 a b (Tree.good_of a ha.1 ha.2) (Tree.good_of b hb.1 hb.2)
+
+/-- the total of the scaled sub recipe is the scaled total -/
+theorem totalQuantity_scale (k : Num) (hk : k.kind ≠ .flt) (hk0 : k.val ≠ 0) (s : Tree)
+    (hn : C03.TreeNormal s) (he : C03.Exact s) :
+    totalQuantity (Tree.scale k s) = (totalQuantity s).map (Quantity.scale k) :=
+  totalQuantity_scale' hk hk0 (Tree.good_of s hn he)
+
+/-- the per-output accumulation does not change when the total and every quantity use are multiplied by `k`:
+    the same state (proportion, problem flag, lints) or the same failure -/
+theorem sumRefs_scale (k : Num) (hk : k.kind ≠ .flt) (hk0 : k.val ≠ 0) (total : Option Quantity)
+    (ht : ∀ tq, total = some tq → tq.value.kind ≠ .flt) (amounts : List Amount)
+    (ha : ∀ q, Amount.quantity q ∈ amounts → q.value.kind ≠ .flt) (st : SumState) :
+    sumRefs true (total.map (Quantity.scale k)) st (amounts.map (Amount.scale k)) = sumRefs true total st amounts := by
+  apply sumRefs_scale' hk hk0 total ht
+  intro a h
+  cases a with
+  | quantity q => exact ha q h
+  | proportion v p w s => trivial
+
+theorem unusedIngredients_scale (k : Num) (hk : k.kind ≠ .flt) (hk0 : k.val ≠ 0) (blocks : List Block)
+    (h : ExactBlocks blocks) : unusedIngredients (scaleBlocks k blocks) = unusedIngredients blocks :=
+  RG.unusedIngredients_scale hk hk0 blocks (exactBlocks_good h)
+
+/-- the invariance holds for every nonzero exact factor -/
+theorem lintQ_scale_invariant_nonzero (k : Num) (hk : k.kind ≠ .flt) (hk0 : k.val ≠ 0) (blocks : List Block)
+    (h : ExactBlocks blocks) : lintQ (scaleBlocks k blocks) = lintQ blocks := by
+  show lintWith true _ = lintWith true _
+  unfold lintWith
+  rw [sumChecks_scale hk hk0 blocks (exactBlocks_good h), unusedIngredients_scale k hk hk0 blocks h]
+
+/-- C20.3 over exact numbers the lints do not depend on the scale of the recipe -/
+theorem lintQ_scale_invariant (k : Num) (hk : k.kind ≠ .flt) (hpos : 0 < k.val) (blocks : List Block)
+    (h : ExactBlocks blocks) : lintQ (scaleBlocks k blocks) = lintQ blocks :=
+  lintQ_scale_invariant_nonzero k hk (by grind) blocks h
+
+-- ================================================================ C20.1 unused ingredients
+/-- `Reach t u`: `u` is met when walking `t` without entering a reference -/
+inductive Reach : Tree → Tree → Prop
+  | refl (t : Tree) : Reach t t
+  | step {d : SVS} {i : List Tree} {t u : Tree} : t ∈ i → Reach t u → Reach (.step d i) u
+  | sub {b : Tree} {ns : List SVS} {sh : Bool} {u : Tree} : Reach b u → Reach (.sub b ns sh) u
+
+/-- an implicit single-ingredient sub recipe: one output whose name is not shown -/
+def IsImplicit : Tree → Prop
+  | .sub _ ns sh => ns.length = 1 ∧ sh = false
+  | _ => False
+
+/-- met when walking the roots of the blocks without entering a reference -/
+def Visible (blocks : List Block) (t : Tree) : Prop := ∃ b ∈ blocks, ∃ root ∈ b, Reach root t
+/-- `==` to the target of some visible reference -/
+def Referenced (blocks : List Block) (s : Tree) : Prop :=
+  ∃ tgt i a, Visible blocks (.reference tgt i a) ∧ Tree.beq s tgt = true
+def Unused (blocks : List Block) (s : Tree) : Prop := Visible blocks s ∧ IsImplicit s ∧ ¬ Referenced blocks s
+
+/-- one representative of every `==`-class of unused implicit ingredients -/
+structure Representatives (blocks : List Block) (reps : List Tree) : Prop where
+  unused : ∀ s ∈ reps, Unused blocks s
+  distinct : reps.Pairwise fun a b => Tree.beq a b = false
+  complete : ∀ s, Unused blocks s → ∃ r ∈ reps, Tree.beq r s = true
+
+/-- `==` on trees is an equivalence, so "number of distinct" is meaningful -/
+theorem beq_equivalence :
+    (∀ a, Tree.beq a a = true) ∧ (∀ a b, Tree.beq a b = true → Tree.beq b a = true) ∧
+    (∀ a b c, Tree.beq a b = true → Tree.beq b c = true → Tree.beq a c = true) :=
+  ⟨Tree.beq_refl, fun _ _ => Tree.beq_symm, fun _ _ _ => Tree.beq_trans⟩
+
+mutual
+theorem implicitSubs_reach : ∀ (t s : Tree), s ∈ Tree.implicitSubs t → Reach t s ∧ IsImplicit s
+  | .ingredient d q, s, h => by simp [Tree.implicitSubs] at h
+  | .step d i, s, h => by
+    simp only [Tree.implicitSubs] at h
+    obtain ⟨t, ht, hr, hi⟩ := implicitSubsList_reach i s h
+    exact ⟨Reach.step ht hr, hi⟩
+  | .reference s' n a, s, h => by simp [Tree.implicitSubs] at h
+  | .sub b ns sh, s, h => by
+    simp only [Tree.implicitSubs, List.mem_append] at h
+    rcases h with h | h
+    · split at h
+      · rename_i hc
+        simp only [List.mem_singleton] at h
+        subst h
+        refine ⟨Reach.refl _, ?_⟩
+        simpa [IsImplicit] using hc
+      · simp at h
+    · obtain ⟨hr, hi⟩ := implicitSubs_reach b s h
+      exact ⟨Reach.sub hr, hi⟩
+theorem implicitSubsList_reach : ∀ (ts : List Tree) (s : Tree), s ∈ Tree.implicitSubsList ts →
+    ∃ t ∈ ts, Reach t s ∧ IsImplicit s
+  | [], s, h => by simp [Tree.implicitSubsList] at h
+  | t :: ts, s, h => by
+    simp only [Tree.implicitSubsList, List.mem_append] at h
+    rcases h with h | h
+    · exact ⟨t, List.mem_cons_self, implicitSubs_reach t s h⟩
+    · obtain ⟨t', ht', h'⟩ := implicitSubsList_reach ts s h
+      exact ⟨t', List.mem_cons_of_mem _ ht', h'⟩
+end
+
+theorem mem_implicitSubsList_of {s : Tree} : ∀ {ts : List Tree} {t : Tree}, t ∈ ts → s ∈ Tree.implicitSubs t →
+    s ∈ Tree.implicitSubsList ts
+  | _ :: ts, t, ht, hs => by
+    simp only [Tree.implicitSubsList, List.mem_append]
+    rcases List.mem_cons.1 ht with rfl | ht
+    · exact Or.inl hs
+    · exact Or.inr (mem_implicitSubsList_of ht hs)
+
+theorem reach_implicitSubs {t s : Tree} (h : Reach t s) (hi : IsImplicit s) : s ∈ Tree.implicitSubs t := by
+  induction h with
+  | refl t =>
+    cases t with
+    | sub b ns sh =>
+      simp only [IsImplicit] at hi
+      simp [Tree.implicitSubs, hi.1, hi.2]
+    | _ => simp [IsImplicit] at hi
+  | step ht _ ih =>
+    simp only [Tree.implicitSubs]
+    exact mem_implicitSubsList_of ht (ih hi)
+  | sub _ ih =>
+    simp only [Tree.implicitSubs, List.mem_append]
+    exact Or.inr (ih hi)
+
+/-- the model's walk collects exactly the visible implicit ingredients -/
+theorem mem_implicitSubsList_iff (blocks : List Block) (s : Tree) :
+    s ∈ Tree.implicitSubsList blocks.flatten ↔ Visible blocks s ∧ IsImplicit s := by
+  constructor
+  · intro h
+    obtain ⟨t, ht, hr, hi⟩ := implicitSubsList_reach _ s h
+    obtain ⟨b, hb, htb⟩ := List.mem_flatten.1 ht
+    exact ⟨⟨b, hb, t, htb, hr⟩, hi⟩
+  · rintro ⟨⟨b, hb, t, htb, hr⟩, hi⟩
+    exact mem_implicitSubsList_of (List.mem_flatten.2 ⟨b, hb, htb⟩) (reach_implicitSubs hr hi)
+
+mutual
+theorem topRefs_reach : ∀ (t r : Tree), r ∈ Tree.topRefs t → Reach t r ∧ ∃ s i a, r = .reference s i a
+  | .ingredient d q, r, h => by simp [Tree.topRefs] at h
+  | .step d i, r, h => by
+    simp only [Tree.topRefs] at h
+    obtain ⟨t, ht, hr, hi⟩ := topRefsList_reach i r h
+    exact ⟨Reach.step ht hr, hi⟩
+  | .reference s n a, r, h => by
+    simp only [Tree.topRefs, List.mem_singleton] at h
+    subst h
+    exact ⟨Reach.refl _, s, n, a, rfl⟩
+  | .sub b ns sh, r, h => by
+    simp only [Tree.topRefs] at h
+    obtain ⟨hr, hi⟩ := topRefs_reach b r h
+    exact ⟨Reach.sub hr, hi⟩
+theorem topRefsList_reach : ∀ (ts : List Tree) (r : Tree), r ∈ Tree.topRefsList ts →
+    ∃ t ∈ ts, Reach t r ∧ ∃ s i a, r = .reference s i a
+  | [], r, h => by simp [Tree.topRefsList] at h
+  | t :: ts, r, h => by
+    simp only [Tree.topRefsList, List.mem_append] at h
+    rcases h with h | h
+    · exact ⟨t, List.mem_cons_self, topRefs_reach t r h⟩
+    · obtain ⟨t', ht', h'⟩ := topRefsList_reach ts r h
+      exact ⟨t', List.mem_cons_of_mem _ ht', h'⟩
+end
+
+theorem mem_topRefsList_of {r : Tree} : ∀ {ts : List Tree} {t : Tree}, t ∈ ts → r ∈ Tree.topRefs t →
+    r ∈ Tree.topRefsList ts
+  | _ :: ts, t, ht, hs => by
+    simp only [Tree.topRefsList, List.mem_append]
+    rcases List.mem_cons.1 ht with rfl | ht
+    · exact Or.inl hs
+    · exact Or.inr (mem_topRefsList_of ht hs)
+
+theorem reach_topRefs {t : Tree} {s : Tree} {i : Nat} {a : Amount} (h : Reach t (.reference s i a)) :
+    .reference s i a ∈ Tree.topRefs t := by
+  generalize hr : Tree.reference s i a = r at h
+  induction h with
+  | refl t => subst hr; simp [Tree.topRefs]
+  | step ht _ ih =>
+    simp only [Tree.topRefs]
+    exact mem_topRefsList_of ht (ih hr)
+  | sub _ ih =>
+    simp only [Tree.topRefs]
+    exact ih hr
+
+/-- the model's walk collects exactly the visible references -/
+theorem mem_topRefsList_iff (blocks : List Block) (r : Tree) :
+    r ∈ Tree.topRefsList blocks.flatten ↔ Visible blocks r ∧ ∃ s i a, r = .reference s i a := by
+  constructor
+  · intro h
+    obtain ⟨t, ht, hr, hi⟩ := topRefsList_reach _ r h
+    obtain ⟨b, hb, htb⟩ := List.mem_flatten.1 ht
+    exact ⟨⟨b, hb, t, htb, hr⟩, hi⟩
+  · rintro ⟨⟨b, hb, t, htb, hr⟩, s, i, a, rfl⟩
+    exact mem_topRefsList_of (List.mem_flatten.2 ⟨b, hb, htb⟩) (reach_topRefs hr)
+
+theorem referenced_iff (blocks : List Block) (s : Tree) :
+    (∀ t ∈ (Tree.topRefsList blocks.flatten).filterMap (fun r => (refSub r).map (·.1)), Tree.beq s t = false) ↔
+      ¬ Referenced blocks s := by
+  constructor
+  · rintro h ⟨tgt, i, a, hv, hb⟩
+    have := h tgt (List.mem_filterMap.2 ⟨.reference tgt i a,
+      (mem_topRefsList_iff blocks _).2 ⟨hv, tgt, i, a, rfl⟩, rfl⟩)
+    rw [hb] at this
+    cases this
+  · intro h t ht
+    obtain ⟨r, hr, hrt⟩ := List.mem_filterMap.1 ht
+    obtain ⟨hv, s', i, a, rfl⟩ := (mem_topRefsList_iff blocks r).1 hr
+    simp only [refSub, Option.map_some, Option.some.injEq] at hrt
+    subst hrt
+    cases hb : Tree.beq s s' with
+    | false => rfl
+    | true => exact absurd ⟨s', i, a, hv, hb⟩ h
+
+/-- C20.1 the linter reports one `unusedIngredient` per `==`-class of visible implicit single-ingredient
+    sub recipes that no visible reference targets: as many as any system of representatives has -/
+theorem unused_iff (blocks : List Block) (reps : List Tree) (h : Representatives blocks reps) :
+    unusedIngredients blocks = List.replicate reps.length .unusedIngredient := by
+  rw [unusedIngredients_eq]
+  congr 1
+  apply unused_length_eq
+  · intro s hs
+    obtain ⟨hv, hi, hr⟩ := h.unused s hs
+    exact ⟨(mem_implicitSubsList_iff blocks s).2 ⟨hv, hi⟩, (referenced_iff blocks s).2 hr⟩
+  · exact h.distinct
+  · intro s hs hr
+    obtain ⟨hv, hi⟩ := (mem_implicitSubsList_iff blocks s).1 hs
+    exact h.complete s ⟨hv, hi, (referenced_iff blocks s).1 hr⟩
+
+/-- a system of representatives always exists (the one the model picks: first occurrences) -/
+theorem representatives_exist (blocks : List Block) : ∃ reps, Representatives blocks reps := by
+  obtain ⟨h1, h2, h3⟩ := unused_model_reps (Tree.implicitSubsList blocks.flatten)
+    ((Tree.topRefsList blocks.flatten).filterMap fun r => (refSub r).map (·.1))
+  refine ⟨_, ⟨?_, h2, ?_⟩⟩
+  · intro s hs
+    obtain ⟨hs1, hs2⟩ := h1 s hs
+    obtain ⟨hv, hi⟩ := (mem_implicitSubsList_iff blocks s).1 hs1
+    exact ⟨hv, hi, (referenced_iff blocks s).1 hs2⟩
+  · rintro s ⟨hv, hi, hr⟩
+    exact h3 s ((mem_implicitSubsList_iff blocks s).2 ⟨hv, hi⟩) ((referenced_iff blocks s).2 hr)
+
+/-- something is reported iff some implicit ingredient is unused -/
+theorem unused_mem_iff (blocks : List Block) :
+    .unusedIngredient ∈ unusedIngredients blocks ↔ ∃ s, Unused blocks s := by
+  obtain ⟨reps, h⟩ := representatives_exist blocks
+  rw [unused_iff blocks reps h]
+  constructor
+  · intro hm
+    cases reps with
+    | nil => simp at hm
+    | cons r _ => exact ⟨r, h.unused r List.mem_cons_self⟩
+  · rintro ⟨s, hs⟩
+    obtain ⟨r, hr, _⟩ := h.complete s hs
+    cases reps with
+    | nil => simp at hr
+    | cons r _ => simp
+
+/-- both layers report the same unused ingredients, first, and nothing else of that kind:
+    the number of `unusedIngredient` entries of the whole result is the number of classes -/
+theorem unused_count (spec : Bool) (blocks : List Block) (reps : List Tree) (h : Representatives blocks reps)
+    (out : List LintKind) (ho : lintWith spec blocks = some out) :
+    (∃ rest, out = unusedIngredients blocks ++ rest ∧ LintKind.unusedIngredient ∉ rest) ∧
+    out.count .unusedIngredient = reps.length := by
+  unfold lintWith at ho
+  simp only [Option.map_eq_some_iff] at ho
+  obtain ⟨rest, hrest, rfl⟩ := ho
+  have hn := sumChecks_go_no_unused spec _ rest (by rw [← sumChecks_eq]; exact hrest)
+  refine ⟨⟨rest, rfl, hn⟩, ?_⟩
+  rw [List.count_append, List.count_eq_zero.2 hn, unused_iff blocks reps h, List.count_replicate_self]
+  rfl
+
+/-- `unusedIngredients` is computed without any arithmetic: the same list prefixes `lintF` and `lintQ` -/
+theorem unused_same_in_both_layers (blocks : List Block) :
+    ∃ restF restQ, lintF blocks = some (unusedIngredients blocks ++ restF) ∧
+      lintQ blocks = some (unusedIngredients blocks ++ restQ) ∧
+      LintKind.unusedIngredient ∉ restF ∧ LintKind.unusedIngredient ∉ restQ := by
+  obtain ⟨outF, hF⟩ := Option.isSome_iff_exists.1 (lintF_total blocks)
+  obtain ⟨outQ, hQ⟩ := Option.isSome_iff_exists.1 (lintQ_total blocks)
+  obtain ⟨reps, h⟩ := representatives_exist blocks
+  obtain ⟨⟨rF, hrF, hnF⟩, _⟩ := unused_count false blocks reps h outF hF
+  obtain ⟨⟨rQ, hrQ, hnQ⟩, _⟩ := unused_count true blocks reps h outQ hQ
+  exact ⟨rF, rQ, hrF ▸ hF, hrQ ▸ hQ, hnF, hnQ⟩
+
+-- ================================================================ recorded finding: the 2 % threshold in binary64
+def wX : Str := "x".toList
+def wG : Str := "g".toList
+/-- `20.0 g x` as an implicit single-ingredient sub recipe -/
+def wSub : Tree :=
+  .sub (.ingredient [.text wX] (some ⟨⟨20, .flt⟩, some wG, " ".toList, []⟩)) [[.text wX]] false
+/-- `9.8 g` (the double nearest to 9.8) -/
+def wUse : Amount := .quantity ⟨⟨toDouble (mkRat 98 10), .flt⟩, some wG, " ".toList, []⟩
+/-- `20.0 g x`, then `mix(9.8 g x, 9.8 g x)` -/
+def wBlocks : List Block :=
+  [[wSub, .step [.text "mix".toList] [.reference wSub 0 wUse, .reference wSub 0 wUse]]]
+
+/-- in binary64 the verdict flips at the threshold when the recipe is scaled by 10 (0.98 is "close" before,
+    "not used up" after), while the exact layer gives the same answer for both -/
+theorem lintF_boundary_flip :
+    lintF wBlocks = some [] ∧
+    lintF (scaleBlocks ⟨10, .int⟩ wBlocks) = some [.notUsedUp] ∧
+    lintQ wBlocks = lintQ (scaleBlocks ⟨10, .int⟩ wBlocks) := by
+  decide +kernel
+
+-- ================================================================ non-vacuity examples
+/-- a total of `500 g` -/
+def exTotal : Quantity := ⟨⟨500, .int⟩, some wG, " ".toList, []⟩
+def exQ (v : Rat) (unit : Option Str) : Amount := .quantity ⟨⟨v, .frac⟩, unit, " ".toList, []⟩
+def exHalf : Amount := .proportion (some ⟨1 / 2, .frac⟩) false none []
+def exRest : Amount := .proportion none false none []
+
+-- the rows of the table on concrete values
+example : factorQ ⟨⟨1, .int⟩, some "kg".toList, [], []⟩ exTotal = some 1000 := by decide +kernel
+example : factorQ ⟨⟨1, .int⟩, some "ml".toList, [], []⟩ exTotal = none := by decide +kernel
+example : factorQ ⟨⟨1, .int⟩, none, [], []⟩ exTotal = none := by decide +kernel
+example : usedQ (some exTotal) 0 [exQ 200 (some wG), exQ (1 / 4) (some "kg".toList)] = 9 / 10 := by decide +kernel
+example : usedQ (some exTotal) 0 [exQ 200 (some wG), exQ (1 / 4) (some "kg".toList), exRest] = 1 := by
+  decide +kernel
+example : lintsQ (some exTotal) 0 [exHalf, exHalf, exRest] = [.nonPositiveRemainder] := by decide +kernel
+example : lintsQ none 0 [exQ 1 none, exHalf] = [.quantityUnknown] := by decide +kernel
+example : lintsQ (some exTotal) 0 [exQ 1 (some "ml".toList), exQ 1 none] = [.incompatibleUnits, .incompatibleUnits] := by
+  decide +kernel
+example : outputLintsQ (some exTotal) [exQ 200 (some wG), exHalf] = [.notUsedUp] := by decide +kernel
+example : outputLintsQ (some exTotal) [exQ 490 (some wG)] = [] := by decide +kernel
+example : outputLintsQ (some exTotal) [exQ 600 (some wG)] = [.usedTooMuch] := by decide +kernel
+example := sumRefs_closed (some exTotal) (by intro tq h; cases h; decide +kernel) [exQ 200 (some wG), exRest]
+example := usedQ_sum (some exTotal) [exQ 200 (some wG), exHalf] 0 (by decide)
+example : CloseQ (49 / 50) ∧ ¬ CloseQ (97 / 100) ∧ CloseQ (51 / 50) ∧ ¬ CloseQ (103 / 100) := by
+  simp only [closeQ_iff]
+  decide +kernel
+example : sumVerdict true (49 / 50) = [] ∧ sumVerdict true (1 / 2) = [.notUsedUp] ∧
+    sumVerdict true 2 = [.usedTooMuch] := by decide +kernel
+
+/-- `500 g flour` (implicit), an unused `1 egg`, and `mix(200 g flour, remainder of flour)` -/
+def exFlour : Tree :=
+  .sub (.ingredient [.text "flour".toList] (some exTotal)) [[.text "flour".toList]] false
+def exEgg : Tree :=
+  .sub (.ingredient [.text "egg".toList] (some ⟨⟨1, .int⟩, none, [], []⟩)) [[.text "egg".toList]] false
+def exBlocks : List Block :=
+  [[exFlour, exEgg], [.step [.text "mix".toList]
+    [.reference exFlour 0 (.quantity ⟨⟨200, .int⟩, some wG, " ".toList, []⟩), .reference exFlour 0 exRest]]]
+
+example : lintQ exBlocks = some [.unusedIngredient] ∧ lintF exBlocks = some [.unusedIngredient] := by
+  decide +kernel
+example : (lintQ exBlocks).isSome ∧ (lintF exBlocks).isSome := ⟨lintQ_total _, lintF_total _⟩
+/-- a zero total is "unknown", not a division by zero -/
+example : lintF [[.sub (.ingredient [.text wX] (some ⟨⟨0, .int⟩, some wG, [], []⟩)) [[.text wX]] false,
+    .reference (.sub (.ingredient [.text wX] (some ⟨⟨0, .int⟩, some wG, [], []⟩)) [[.text wX]] false) 0
+      (.quantity ⟨⟨1, .int⟩, some wG, [], []⟩)]] = some [.quantityUnknown] := by decide +kernel
+
+theorem exBlocks_exact : ExactBlocks exBlocks := by
+  have hs : ∀ t : Str, t ≠ [] → C03.SvsNormal [.text t] := fun t ht =>
+    (Svs.normal_iff _).1 ⟨ht, rfl, trivial⟩
+  have h1 := hs "flour".toList (by decide)
+  have h2 := hs "egg".toList (by decide)
+  have h3 := hs "mix".toList (by decide)
+  have he : ∀ b ∈ exBlocks, ∀ t ∈ b, ∀ n ∈ C03.nums t, n.kind ≠ .flt := by decide +kernel
+  intro b hb t ht
+  refine ⟨?_, he b hb t ht⟩
+  simp only [exBlocks, List.mem_cons, List.not_mem_nil, or_false] at hb
+  rcases hb with rfl | rfl
+  · simp only [List.mem_cons, List.not_mem_nil, or_false] at ht
+    rcases ht with rfl | rfl
+    · simpa [exFlour, C03.TreeNormal] using h1
+    · simpa [exEgg, C03.TreeNormal] using h2
+  · simp only [List.mem_cons, List.not_mem_nil, or_false] at ht
+    subst ht
+    simpa [exFlour, C03.TreeNormal, C03.TreeNormalList] using ⟨h3, h1⟩
+
+example : lintQ (scaleBlocks ⟨7 / 3, .frac⟩ exBlocks) = lintQ exBlocks :=
+  lintQ_scale_invariant ⟨7 / 3, .frac⟩ (by decide) (by decide +kernel) exBlocks exBlocks_exact
+example : lintQ (scaleBlocks ⟨7 / 3, .frac⟩ exBlocks) = some [.unusedIngredient] := by decide +kernel
+example := sumRefs_scale ⟨3, .int⟩ (by decide) (by decide +kernel) (some exTotal) (by intro tq h; cases h; decide)
+  [exQ 200 (some wG), exRest]
+  (by intro q h; simp only [exQ, exRest, List.mem_cons, List.not_mem_nil, or_false, Amount.quantity.injEq,
+        reduceCtorEq] at h; subst h; decide) {}
+example := totalQuantity_scale ⟨3, .int⟩ (by decide) (by decide +kernel) exFlour
+  (exBlocks_exact [exFlour, exEgg] (by simp [exBlocks]) exFlour (by simp)).1
+  (exBlocks_exact [exFlour, exEgg] (by simp [exBlocks]) exFlour (by simp)).2
+/-- normality is needed: two ingredients whose un-normalised names differ are merged into one by scaling -/
+example :
+    lintQ [[.sub (.ingredient [.text ['a'], .text ['b']] none) [[.text wX]] false,
+            .sub (.ingredient [.text ['a', 'b']] none) [[.text wX]] false]] =
+      some [.unusedIngredient, .unusedIngredient] ∧
+    lintQ (scaleBlocks ⟨1, .int⟩
+          [[.sub (.ingredient [.text ['a'], .text ['b']] none) [[.text wX]] false,
+            .sub (.ingredient [.text ['a', 'b']] none) [[.text wX]] false]]) =
+      some [.unusedIngredient] := by decide +kernel
+
+/-- the egg is the one unused implicit ingredient of `exBlocks` -/
+theorem exBlocks_reps : Representatives exBlocks [exEgg] := by
+  obtain ⟨reps, h⟩ := representatives_exist exBlocks
+  have hl := unused_iff exBlocks reps h
+  have hc : unusedIngredients exBlocks = [.unusedIngredient] := by decide +kernel
+  rw [hc] at hl
+  have hlen : reps.length = 1 := by
+    have := congrArg List.length hl
+    simpa using this.symm
+  match reps, hlen with
+  | [r], _ =>
+    have hr := h.unused r List.mem_cons_self
+    have hmem := (mem_implicitSubsList_iff exBlocks r).2 ⟨hr.1, hr.2.1⟩
+    have hI : Tree.implicitSubsList exBlocks.flatten = [exFlour, exEgg] := by
+      simp [exBlocks, exFlour, exEgg, Tree.implicitSubsList, Tree.implicitSubs]
+    rw [hI] at hmem
+    simp only [List.mem_cons, List.not_mem_nil, or_false] at hmem
+    rcases hmem with rfl | rfl
+    · exfalso
+      apply hr.2.2
+      refine ⟨exFlour, 0, exRest, ⟨_, List.mem_cons_of_mem _ List.mem_cons_self, _, List.mem_cons_self,
+        Reach.step (List.mem_cons_of_mem _ List.mem_cons_self) (Reach.refl _)⟩, Tree.beq_refl _⟩
+    · exact h
+example : unusedIngredients exBlocks = List.replicate 1 .unusedIngredient :=
+  unused_iff exBlocks [exEgg] exBlocks_reps
+example : ∃ s, Unused exBlocks s := (unused_mem_iff exBlocks).1 (by decide +kernel)
+
 end RG.C20
